@@ -274,13 +274,18 @@ pub struct Base {
     /// batch only: honest per-instance lookups (not serialisable)
     common: Option<CommonData<MyConfig>>,
     cap_height: usize,
+    /// generic batch bases only: the verifier's AIR list
+    gairs: Vec<batch::GAir>,
 }
 
 #[derive(Clone, Copy, PartialEq, Debug)]
 pub enum Kind {
     UniFib,
     UniMul,
+    /// circuit-prover proof through `verify_p3_batch_proof_circuit`
     Batch,
+    /// plain AIRs through the generic `verify_batch_circuit`
+    GBatch,
 }
 
 fn run_uni<A>(cfg: &MyConfig, air: &A, input: &Value, npub: usize) -> Result<Fingerprint, (String, String)>
@@ -354,6 +359,18 @@ impl Base {
             Kind::UniFib => guarded(|| run_uni(&cfg, &FibonacciAir {}, input, 3)),
             Kind::UniMul => guarded(|| run_uni(&cfg, &MulAir { rows: 8 }, input, 0)),
             Kind::Batch => guarded(|| run_batch(&cfg, self.common.as_ref().unwrap(), input)),
+            Kind::GBatch => guarded(|| batch::run_gbatch(&cfg, &self.gairs, input)),
+        }
+    }
+
+    /// Driver line of a (mutated) input. `in_worker = false`: called by the parent after the worker
+    /// died on this case; then the circuit-table AIRs are only rebuilt when the table metadata is
+    /// the honest one (rebuilding them from altered counts could kill the parent the same way).
+    pub fn shape_line(&self, input: &Value, in_worker: bool) -> Option<String> {
+        match self.kind {
+            Kind::Batch if !in_worker && !batch::same_metadata(input, &self.input) => None,
+            Kind::Batch | Kind::GBatch => batch::shape_line(self, input),
+            _ => shape::shape_line(self.kind, self.cap_height, input),
         }
     }
 }
@@ -365,7 +382,7 @@ fn base_uni_fib(name: &'static str, cap_height: usize, mmcs: bool) -> Base {
     let proof = prove(&cfg, &FibonacciAir {}, trace, &pis);
     assert!(p3_uni_stark::verify(&cfg, &FibonacciAir {}, &proof, &pis).is_ok());
     let input = json!({"proof": serde_json::to_value(&proof).unwrap(), "prep_commit": Value::Null, "params": params_json(mmcs)});
-    let mut b = Base { name, kind: Kind::UniFib, input, honest: Fingerprint { ops: 0, witnesses: 0, public_len: 0, private_len: 0, npo: 0, ops_hash: 0 }, common: None, cap_height };
+    let mut b = Base { name, kind: Kind::UniFib, input, honest: Fingerprint { ops: 0, witnesses: 0, public_len: 0, private_len: 0, npo: 0, ops_hash: 0 }, common: None, cap_height, gairs: vec![] };
     b.honest = match b.run(&b.input).0 {
         Outcome::Ok(fp) => fp,
         o => panic!("honest {name} does not build: {o:?}"),
@@ -382,7 +399,7 @@ fn base_uni_mul() -> Base {
     assert!(p3_uni_stark::verify_with_preprocessed(&cfg, &air, &proof, &[], vk.as_ref()).is_ok());
     let commit = vk.map(|v| v.commitment).unwrap();
     let input = json!({"proof": serde_json::to_value(&proof).unwrap(), "prep_commit": serde_json::to_value(&commit).unwrap(), "params": params_json(false)});
-    let mut b = Base { name: "uni-mul", kind: Kind::UniMul, input, honest: Fingerprint { ops: 0, witnesses: 0, public_len: 0, private_len: 0, npo: 0, ops_hash: 0 }, common: None, cap_height: 0 };
+    let mut b = Base { name: "uni-mul", kind: Kind::UniMul, input, honest: Fingerprint { ops: 0, witnesses: 0, public_len: 0, private_len: 0, npo: 0, ops_hash: 0 }, common: None, cap_height: 0, gairs: vec![] };
     b.honest = match b.run(&b.input).0 {
         Outcome::Ok(fp) => fp,
         o => panic!("honest uni-mul does not build: {o:?}"),
@@ -397,6 +414,10 @@ fn base_batch() -> Base {
 /// `n_adds` additions: a larger value gives the ALU table a different height from the Const / Public
 /// tables (the FRI input batches then hold matrices of several heights).
 fn base_batch_sized(n_adds: usize) -> Base {
+    base_batch_named(if n_adds == 3 { "batch" } else { "batch-h" }, n_adds)
+}
+
+fn base_batch_named(name: &'static str, n_adds: usize) -> Base {
     let cfg = make_config(0);
     // a small circuit: x*3 + c = y with a public y, plus a short add chain
     let mut b = CircuitBuilder::<F>::new();
@@ -426,7 +447,7 @@ fn base_batch_sized(n_adds: usize) -> Base {
     let lookups: Vec<usize> = (0..common.lookups.len()).collect();
     let input = json!({"proof": serde_json::to_value(&proof).unwrap(), "lookups": lookups, "params": params_json(true)});
     let common = CommonData::<MyConfig>::new(None, common.lookups.clone());
-    let mut base = Base { name: "batch", kind: Kind::Batch, input, honest: Fingerprint { ops: 0, witnesses: 0, public_len: 0, private_len: 0, npo: 0, ops_hash: 0 }, common: Some(common), cap_height: 0 };
+    let mut base = Base { name, kind: Kind::Batch, input, honest: Fingerprint { ops: 0, witnesses: 0, public_len: 0, private_len: 0, npo: 0, ops_hash: 0 }, common: Some(common), cap_height: 0, gairs: vec![] };
     base.honest = match base.run(&base.input) {
         (Outcome::Ok(fp), _) => fp,
         o => panic!("honest batch does not build: {o:?}"),
@@ -769,6 +790,9 @@ fn mutation_from(v: &Value) -> Option<Mutation> {
 #[path = "c15_shape.rs"]
 pub mod shape;
 
+#[path = "c15_batch.rs"]
+pub mod batch;
+
 // ------------------------------------------------------------------ main
 
 struct Case {
@@ -1011,7 +1035,7 @@ pub fn main(args: &crate::Args) {
                                 format!("worker died ({status:?})")
                             };
                             let b = &bases[c.base];
-                            let shape = apply_case(&b.input, c).and_then(|mv| shape::shape_line(b.kind, b.cap_height, &mv));
+                            let shape = apply_case(&b.input, c).and_then(|mv| b.shape_line(&mv, false));
                             child = spawn();
                             rd = BufReader::new(child.stdout.take().unwrap());
                             Res { outcome: Outcome::Abort(why), detail: errtxt.lines().last().unwrap_or("").chars().take(200).collect(), shape, unrepresentable: false }
@@ -1031,7 +1055,7 @@ pub fn main(args: &crate::Args) {
     let mut impl_f = std::fs::File::create(format!("{out}/c15.impl")).unwrap();
     let mut lines = 0usize;
     for b in &bases {
-        if let Some(l) = shape::shape_line(b.kind, b.cap_height, &b.input) {
+        if let Some(l) = b.shape_line(&b.input, true) {
             writeln!(cases_f, "{l}").unwrap();
             writeln!(impl_f, "ok same").unwrap();
             lines += 1;
@@ -1092,6 +1116,19 @@ pub fn main(args: &crate::Args) {
         let replay = json!({"case": replay.clone(), "base": replay["base"], "path": replay["path"], "mutation": replay["mutation"], "second": replay.get("second"), "generic_path": gp,
                             "profile": if cfg!(debug_assertions) { "dev (overflow checks on)" } else { "release" }});
         let site = site_of(&gp);
+        // `degree_bits[i]` of an instance whose degree no preprocessed metadata pins is the prover's
+        // declared trace height (native `validate_degree_bits` accepts every value in range): like a
+        // parameter, an accepted change is the well-formed circuit for that declared height; only a
+        // crash is a violation there. Pinned instances (metadata present) stay under the full rule.
+        let free_degree = |p: &[Seg]| -> bool {
+            let [.., Seg::K(k), Seg::I(i)] = p else { return false };
+            if k != "degree_bits" || !matches!(b.kind, Kind::Batch | Kind::GBatch) {
+                return false;
+            }
+            let Some(mv) = apply_case(&b.input, c) else { return false };
+            let sc = if b.kind == Kind::Batch { &mv["proof"]["stark_common"] } else { &mv["stark_common"] };
+            sc.is_null() || sc["instances"].get(*i).is_none_or(Value::is_null)
+        };
         let single = |site: &str, params: bool| match &r.outcome {
             Outcome::Panic { .. } | Outcome::Abort(_) => Some(format!("panic:{site}")),
             // parameters are the verifier's own choice: any accepted parameter set is the
@@ -1102,7 +1139,11 @@ pub fn main(args: &crate::Args) {
         let key = |p: &[Seg], m: &Mutation| format!("{}|{}|{}", b.name, path_json(p), mutation_json(m));
         let class = match &c.second {
             None => {
-                let cl = single(&site, gp.starts_with("params."));
+                let free = matches!(&r.outcome, Outcome::Ok(fp) if *fp != b.honest) && free_degree(&c.path);
+                if free {
+                    *hist.entry("accepted: declared degree of an instance without preprocessed metadata (not malformed)".into()).or_default() += 1;
+                }
+                let cl = single(&site, gp.starts_with("params.") || free);
                 single_class.insert(key(&c.path, &c.m), cl.clone());
                 if let Some(x) = &cl {
                     site_class.insert(format!("{}|{}", site, c.m.name()), x.clone());
@@ -1136,7 +1177,7 @@ pub fn main(args: &crate::Args) {
                             c1
                         } else if c2.as_deref().is_some_and(|x| x.starts_with(md)) {
                             c2
-                        } else if md == "accepted-malformed:" && (gp.starts_with("params.") || gp2.starts_with("params.")) {
+                        } else if md == "accepted-malformed:" && (gp.starts_with("params.") || gp2.starts_with("params.") || free_degree(&c.path) || free_degree(p2)) {
                             None
                         } else if md == "accepted-malformed:" && (c1.is_some() || c2.is_some()) {
                             // one alteration alone crashes, the other repairs it into an accepted different shape
@@ -1219,7 +1260,7 @@ pub fn worker_main(_args: &crate::Args) {
             };
             let (o, d) = b.run(&mv);
             let unrep = matches!(&o, Outcome::Err(k) if k == "unrepresentable");
-            let shape = if unrep { None } else { shape::shape_line(b.kind, b.cap_height, &mv) };
+            let shape = if unrep { None } else { b.shape_line(&mv, true) };
             Some(match o {
                 Outcome::Err(k) => json!({"outcome": "err", "kind": k, "detail": d, "shape": shape}),
                 Outcome::Panic { file, line, msg } => json!({"outcome": "panic", "file": file, "line": line, "msg": msg, "detail": d, "shape": shape}),
@@ -1235,5 +1276,19 @@ pub fn worker_main(_args: &crate::Args) {
 }
 
 fn all_bases() -> Vec<Base> {
-    vec![base_uni_fib("uni-fib", 0, true), base_uni_fib("uni-fib-cap1", 1, true), base_uni_mul(), base_batch()]
+    use batch::{AddAir, GAir, base_gbatch};
+    vec![
+        base_uni_fib("uni-fib", 0, true),
+        base_uni_fib("uni-fib-cap1", 1, true),
+        base_uni_mul(),
+        base_batch(),
+        // circuit tables of different heights (the FRI input batches hold matrices of several heights)
+        base_batch_named("batch-h", 45),
+        // generic entry `verify_batch_circuit`: 1 instance, no preprocessed data, no lookups
+        base_gbatch("gbatch-1", vec![GAir::Fib(8)]),
+        // 2 instances of different degrees, the first with preprocessed columns, the second without a next-row opening
+        base_gbatch("gbatch-2", vec![GAir::Mul(MulAir { rows: 8 }), GAir::Add(AddAir { rows: 16 })]),
+        // 4 instances, two preprocessed matrices of different degrees, public values on the third
+        base_gbatch("gbatch-4", vec![GAir::Add(AddAir { rows: 8 }), GAir::Mul(MulAir { rows: 16 }), GAir::Fib(8), GAir::Mul(MulAir { rows: 8 })]),
+    ]
 }
